@@ -192,22 +192,19 @@ def decode_public_rule(ctx, report):
         report.analysed_fns.add(f.path)
         bn = backend_name(f.impl_self["s"])
         an = ctx.an(f)
-        problems = []
-        n = 0
-        for bb, idx, e, node in ret_exprs(an):
-            es = strip(e)
-            cur = es
-            if cur.k == "call" and cur.a[0].name in ("map_err", "map") and cur.a[1]:
-                cur = strip(cur.a[1][0])
-            names = STRICT_KEY_PARSERS.get(bn, ())
-            if cur.k == "call" and cur.a[0].name in names and cur.a[1] and not cur.a[0].local:
-                arg = strip(cur.a[1][-1])
+        names = STRICT_KEY_PARSERS.get(bn, ())
+        bad_arg = []
+
+        def is_parser(c):
+            if c.a[0].name in names and c.a[1] and not c.a[0].local:
+                arg = strip(c.a[1][-1])
                 if arg.k == "param" and arg.a[0] == 1:
-                    n += 1
-                    continue
-                problems.append("the library parser is given %s, not the whole entry" % short(arg, 120))
-            else:
-                problems.append("returns %s" % short(e, 160))
+                    return True
+                bad_arg.append("the library parser is given %s, not the whole entry" % short(arg, 120))
+            return False
+        from kernel import result_passthrough
+        n, problems = result_passthrough(an, ret_exprs(an), is_parser)
+        problems = bad_arg + problems
         report.check("PUBKEY", "decode_public/" + bn, not problems and n >= 1,
                      "%s::decode_public is the library's strict key parser applied to the whole entry" % bn,
                      "%s::decode_public: %s" % (bn, "; ".join(problems) or "never calls the library parser"), fn=f.path, sp=f.span, config=cfg)
